@@ -220,6 +220,13 @@ void* vf_os_mmap(void* addr, size_t len, int prot, int flags, int fd, long off) 
     errno = ENOMEM;
     return MAP_FAILED;
   }
+  if (vf_os.ignore_hint && addr != NULL && !(flags & MAP_FIXED)) {
+    /* environment answer "hint not honoured": deterministic placement below the 48 TiB limit of mimalloc's segment map, never
+       aligned to more than 4 KiB */
+    if (vf_os.hint_bump == 0) vf_os.hint_bump = (uintptr_t)0x200000000000ULL;
+    addr = (void*)(vf_os.hint_bump + 68 * 1024);
+    vf_os.hint_bump += ((len + (64UL << 20)) & ~((32UL << 20) - 1));
+  }
   void* p = mmap(addr, len, prot, flags, fd, off);
   if (p != MAP_FAILED) {
     region_add((uintptr_t)p, pg_up((uintptr_t)p + len), (prot & PROT_WRITE) ? VF_P_RW : VF_P_NONE, 0, (uint32_t)idx);
@@ -359,6 +366,7 @@ __attribute__((constructor(101))) static void vf_os_startup(int argc, char** arg
   const char* s = getenv("VERIF_SEED");
   if (s && *s) vf_os.rng_seed = strtoull(s, NULL, 10) + 1;
   if (getenv("VF_RESET_ZERO")) vf_os.reset_zero = atoi(getenv("VF_RESET_ZERO"));
+  if (getenv("VF_IGNORE_HINT")) vf_os.ignore_hint = atoi(getenv("VF_IGNORE_HINT"));
   if (getenv("VF_MADV_FREE_EINVAL")) vf_os.madv_free_einval = atoi(getenv("VF_MADV_FREE_EINVAL"));
   if (getenv("VF_NO_REEXEC")) return;
   int pers = personality(0xffffffff);
